@@ -97,12 +97,24 @@ class Leaves:
             b = self.body_of(path)
             if b is not None:
                 return self._ret_of({path}, 'value', depth, stack)
-            return {('extract', path, self._garg(fn, n))}
+            return {('extract', path, self._garg(fn, n), self.recv_root(n[2][0] if n[2] else frozenset()))}
         if k in ('binop', 'unop', 'cast'):
             return {('opaque', fmt_node(n)[:80])}
         if k == 'agg':
             return {('opaque', 'agg ' + n[1])}
         return {('opaque', fmt_node(n)[:80])}
+
+    def _rebind(self, leaves, recv_terms):
+        """a closure passed to and_then/map receives the payload of the adaptor's receiver: conversion leaves whose
+        receiver is the closure parameter are re-rooted at that receiver"""
+        roots = self.recv_root(recv_terms)
+        out = set()
+        for l in leaves:
+            if l[0] == 'extract' and len(l) > 3 and l[3] and all(r[0] == 'param' for r in l[3]):
+                out.add((l[0], l[1], l[2], roots))
+            else:
+                out.add(l)
+        return out
 
     def _garg(self, fn, n):
         # generic args of the call at its site (to tell extract::<bool> from extract::<f64>)
@@ -173,7 +185,7 @@ class Leaves:
                     if m in ('and_then',):
                         cps = self._closure_path(args[1])
                         if cps:
-                            return self._ret_of(cps, 'payload', depth, stack)
+                            return self._rebind(self._ret_of(cps, 'payload', depth, stack), args[0])
                         fi = [x for x in args[1] if x[0] == 'fnitem']
                         if fi:
                             return self._ret_of({x[1] for x in fi}, 'payload', depth, stack)
@@ -181,7 +193,7 @@ class Leaves:
                     if m in ('map',):
                         cps = self._closure_path(args[1])
                         if cps:
-                            return self._ret_of(cps, 'value', depth, stack)
+                            return self._rebind(self._ret_of(cps, 'value', depth, stack), args[0])
                         fi = [x for x in args[1] if x[0] == 'fnitem']
                         if fi:
                             out = set()
@@ -199,10 +211,45 @@ class Leaves:
             b = self.body_of(path)
             if b is not None:
                 return self._ret_of({path}, 'payload', depth, stack)
-            return {('extract', path, self._garg(fn, n))}
+            return {('extract', path, self._garg(fn, n), self.recv_root(n[2][0] if n[2] else frozenset()))}
         if k == 'param':
             return {('param', n[2] or str(n[1]))}
         return {('opaque', fmt_node(n)[:80])}
+
+    # ---- receiver provenance of a conversion call ------------------------------------------------
+    PASS_RECV = ('downcast', 'downcast_into', 'downcast_exact', 'cast', 'cast_into', 'bind', 'into_bound', 'as_any', 'into_any',
+                 'as_ref', 'as_borrowed', 'to_owned', 'clone', 'clone_ref', 'borrow', 'unbind', 'as_unbound', 'dyn_into', 'dyn_ref',
+                 'unchecked_into', 'unchecked_ref', 'into', 'from')
+
+    def recv_root(self, ts, depth=0):
+        """what the receiver of a conversion denotes: a frozenset of roots
+        ('call', callee path, method-name constant or None) | ('param', name) | ('other', text);
+        wrappers that only re-type the same object (downcast, bind, as_any, ..) are looked through"""
+        out = set()
+        if depth > 8:
+            return frozenset([('other', 'depth')])
+        for n in ts:
+            k = n[0]
+            if k in ('unwrap', 'clone'):
+                out |= self.recv_root(n[1], depth + 1)
+            elif k == 'param':
+                out.add(('param', n[2] or str(n[1])))
+            elif k == 'call':
+                name = n[1].rsplit('::', 1)[-1]
+                if name in self.PASS_RECV and n[2]:
+                    out |= self.recv_root(n[2][0], depth + 1)
+                else:
+                    mname = None
+                    for a in n[2][1:3]:
+                        for c in a:
+                            if c[0] == 'const' and '"' in c[1]:
+                                mname = c[1].split('"')[1]
+                    out.add(('call', n[1], mname))
+            elif k == 'field':
+                out.add(('field', n[2]))
+            else:
+                out.add(('other', k))
+        return frozenset(out)
 
     # ---- error side -----------------------------------------------------------------------
     def may_be_err_free(self, fn, terms):
